@@ -4,6 +4,7 @@ cd /verif || exit 2
 SEEDS=${*:-$(ls seeded)}
 CHECKS=$(ls sa/rules | sed -n 's/^c\([0-9]*\)\.py$/C\1/p')
 for s in $SEEDS; do
+  if grep -q '"retired": true' seeded/$s/meta.json 2>/dev/null; then echo "$s: retired (see meta.json)"; continue; fi
   T=$(mktemp -d /var/tmp/seedrun.XXXXXX)
   cp -r /repo/apischema "$T"/ && cp -r /repo/docs "$T"/
   if ! (cd "$T" && patch -p1 -s < /verif/seeded/$s/patch.diff); then echo "$s: PATCH FAILED"; rm -rf "$T"; continue; fi
